@@ -440,6 +440,49 @@ func runC07(r *Run, verifDir string) {
 			}
 		}
 		walk(needBlock)
+		// the limit only applies when one is configured: the rejection is reached under max > 0 (a limit of 0, or the
+		// -1 the client passes, means "no limit" — without the test every message is refused)
+		isMaxV := func(v ssa.Value) bool {
+			u, ok := unspill(v).(*ssa.UnOp)
+			if !ok {
+				return false
+			}
+			_, fld, ok := fieldAddrOf(u.X)
+			return ok && fname(fld) == "max"
+		}
+		nRej, rejBad := 0, token.NoPos
+		for _, b := range fn.Blocks {
+			ret, ok := b.Instrs[len(b.Instrs)-1].(*ssa.Return)
+			if !ok || len(ret.Results) == 0 || isNilConst(ret.Results[len(ret.Results)-1]) {
+				continue
+			}
+			over, positive := false, false
+			for _, dc := range dominatingConds(b) {
+				bo, ok := dc.cond.(*ssa.BinOp)
+				if !ok || !dc.outcome {
+					continue
+				}
+				if bo.Op == token.GTR && (unspill(bo.X) == needVal || unspill(bo.X) == needCur) && isMaxV(bo.Y) {
+					over = true
+				}
+				if isMaxV(bo.X) {
+					if k, isK := constIntVal(bo.Y); isK && ((bo.Op == token.GTR && k >= 0) || (bo.Op == token.GEQ && k >= 1) || (bo.Op == token.NEQ && k == 0)) {
+						positive = true
+					}
+				}
+			}
+			if over {
+				nRej++
+				if !positive {
+					rejBad = ret.Pos()
+				}
+			}
+		}
+		if rejBad.IsValid() {
+			r.Bad("C07.S3", "ttlv.Stream.Recv/limit-only-if-positive", rejBad, "Recv refuses a message for exceeding the maximum without having found the maximum positive: a stream created with no limit (0, or the client's -1) rejects every message")
+		} else if nRej > 0 {
+			r.OK("C07.S3", "ttlv.Stream.Recv/limit-only-if-positive", fn.Pos(), "the size rejection is reached only under max > 0")
+		}
 		switch {
 		case nLimit == 0:
 			r.Bad("C07.S3", "ttlv.Stream.Recv/limit", fn.Pos(), "the announced extent is never compared with the configured maximum")
